@@ -281,6 +281,10 @@ func (pc *ProviderCache) Refresh(ctx context.Context) error {
 		if err != nil {
 			log.Errorw("cannot fetch provider info", "err", err, "source", src)
 			if ctx.Err() != nil {
+				// Nothing is published on this path. Give the sequence number
+				// back, so that the records already merged during this refresh
+				// are published by the next one instead of being skipped forever.
+				pc.seq--
 				return ctx.Err()
 			}
 			continue
